@@ -22,6 +22,7 @@ func checkC16(p *Prog, r *Report) {
 	c16AutoN(p, r)
 	c16TableRow(p, r)
 	c16Skip(p, r)
+	c16HarvestSites(p, r)
 }
 
 func nonLoopGuardKeys(e *Event) []string {
@@ -516,4 +517,100 @@ func hasGuardKey(e *Event, g *Cond) bool {
 		}
 	}
 	return false
+}
+
+// ---------------------------------------------------------------- harvest sites agree
+
+// c16HarvestSites: every site of the crop routine that sets an automatic
+// harvest date moves a following FIXED sowing date that is not later than the
+// harvest just set to harvest + 4 (sowing window start and end).  A site
+// without the shift, or with a shift that misses the boundary days, leaves the
+// next crop's sowing day in the past: its sowing initialisation never runs and
+// the crop routine indexes the development stage −1 (the panic ends the whole
+// batch process).
+func c16HarvestSites(p *Prog, r *Report) {
+	r.Rule("C16.R8", "harvest-setting sites agree: every store of an automatically determined harvest date in the crop routine is followed, in the same arm, by 'if the next entry has a sowing date and it is not later than that harvest date, move sowing date and window end to harvest + 4'", 3)
+	x := walked(p, "hermes.PhytoOut")
+	if x == nil {
+		r.Ob("PhytoOut", "-", false, "hermes.PhytoOut not found")
+		return
+	}
+	akf := cellP("GlobalVarsMain.AKF.Index")
+	next := akf.Add(PInt(1))
+	n := 0
+	for _, h := range x.Events {
+		if h.Kind != "assign" || h.Root != "GlobalVarsMain.ERNTE" || len(h.Idx) != 1 || !stripVersions(h.Idx[0]).Equal(akf) {
+			continue
+		}
+		n++
+		hv := stripVersions(h.Val)
+		hk := map[string]bool{}
+		for _, g := range flattenGuards(h.Guards) {
+			hk[stripCondVersions(g)] = true
+		}
+		var sa, s2 *Event
+		for _, e := range x.Events {
+			if e.Kind != "assign" || e.Seq < h.Seq || len(e.Idx) != 1 || !stripVersions(e.Idx[0]).Equal(next) {
+				continue
+			}
+			// same arm: the harvest store's guards are among the shift's guards
+			sub := true
+			ek := map[string]bool{}
+			for _, g := range flattenGuards(e.Guards) {
+				ek[stripCondVersions(g)] = true
+			}
+			for k := range hk {
+				if !ek[k] {
+					sub = false
+				}
+			}
+			if !sub {
+				continue
+			}
+			if e.Root == "GlobalVarsMain.SAAT" && sa == nil {
+				sa = e
+			}
+			if e.Root == "GlobalVarsMain.SAAT2" && s2 == nil {
+				s2 = e
+			}
+		}
+		ok := sa != nil && s2 != nil
+		det := fmt.Sprintf("harvest date := %s", hv)
+		if !ok {
+			det += ": no shift of the next entry's sowing date and window end in the same arm"
+		} else {
+			valOK := stripVersions(sa.Val).Equal(hv.Add(PInt(4))) && stripVersions(s2.Val).Equal(hv.Add(PInt(4)))
+			// own guards of the shift: SAAT[next] > 0 and SAAT[next] − harvest ≤ 0
+			has, notLater := false, false
+			var extra []string
+			for _, g := range flattenGuards(sa.Guards) {
+				k := stripCondVersions(g)
+				if hk[k] {
+					continue
+				}
+				if g.Kind == "cmp" {
+					gp := stripVersions(g.P)
+					sn := cellP("GlobalVarsMain.SAAT", next)
+					switch {
+					case g.Op == token.GTR && gp.Equal(sn):
+						has = true
+						continue
+					case g.Op == token.LEQ && gp.Equal(sn.Sub(hv)):
+						notLater = true
+						continue
+					case g.Op == token.GEQ && gp.Equal(hv.Sub(sn)):
+						notLater = true
+						continue
+					}
+				}
+				extra = append(extra, k)
+			}
+			ok = valOK && has && notLater && len(extra) == 0
+			det += fmt.Sprintf("; next sowing date and window end := %s (must be harvest + 4: %v) under 'has a sowing date': %v and 'sowing date ≤ harvest date': %v; other conditions: %v", stripVersions(sa.Val), valOK, has, notLater, extra)
+		}
+		r.Ob("shift-after-harvest", p.Pos(h.Pos), ok, det)
+	}
+	if n < 3 {
+		r.Ob("harvest-sites", "-", false, fmt.Sprintf("%d stores of an automatic harvest date found in the crop routine, 3 confirmed", n))
+	}
 }
